@@ -64,7 +64,15 @@ def clientOp (t : String) : Option COp :=
   | ["h2", "0"] => some (.assumeHttp2 false)
   | ["h2", "1"] => some (.assumeHttp2 true)
   | ["roots"] => some .withEnabledRoots
+  -- the methods below exist only in the side builds (`tlsf` cases)
+  | ["nroots"] => some .withNativeRoots
+  | ["wroots"] => some .withWebpkiRoots
   | _ => none
+
+def usesOnly (native webpki : Bool) : COp → Bool
+  | .withNativeRoots => native
+  | .withWebpkiRoots => webpki
+  | _ => true
 
 def serverOp (t : String) : Option SOp :=
   match t.splitOn ":" with
@@ -104,6 +112,23 @@ structure ClientPart where
   uri : Uri
   client : ClientSetup
 
+/-- `tlsf <feat> <store>`: which build of tonic ran the case, and what the platform certificate
+store held (`SSL_CERT_FILE`). -/
+def storeOf : String → Option (List Cert)
+  | "ca1" => some [.ca1]
+  | "ca2" => some [.ca2]
+  | "ca1+ca2" => some [.ca1, .ca2]
+  | "empty" => some []       -- an empty file
+  | "junk" => some []        -- a PEM section that is not a certificate
+  | "missing" => some []     -- no such file
+  | _ => none
+
+def sysOfSide (feat store : String) : Option (Sys Cert) :=
+  match feat, storeOf store with
+  | "n", some st => some (sysWith false st)
+  | "nw", some st => some (sysWith true st)
+  | _, _ => none
+
 /-- The server of a case, the transport, and the run mode. -/
 structure ServerPart where
   serverCert : Cert
@@ -116,6 +141,8 @@ structure ServerPart where
 structure Case where
   c : ClientPart
   s : ServerPart
+  /-- build features and platform store the case ran with -/
+  sys : Sys Cert
 
 def splitAt? (ts : List String) : Option (List String × List String) :=
   match ts.span (· ≠ ";") with
@@ -151,17 +178,26 @@ def parseTransport (tr : String) : Option (InnerInfo × Bool) :=
     else none
   | [] => none
 
+/-- every builder method a client of the case calls exists in the build that runs it -/
+def clientFits (y : Sys Cert) (c : ClientPart) : Bool :=
+  match c.client with
+  | .ops l => l.all (usesOnly y.featNative y.featWebpki)
+  | _ => true
+
+def parseCasesWith (y : Sys Cert) (rest : List String) : Option (List Case) :=
+  match splitAt? rest with
+  | some (cpart, [sc, alpn, sops, tr]) =>
+    match mapM? parseClient (splitBar cpart), certOf sc, serverOps sops, parseTransport tr with
+    | some clients, some serverCert, some sops, some (inner, twice) =>
+      let s : ServerPart := { serverCert, alpn, sops, inner, twice }
+      if clients.all (clientFits y) then some (clients.map fun c => { c, s, sys := y }) else none
+    | _, _, _, _ => none
+  | _ => none
+
 def parseCases (ts : List String) : Option (List Case) :=
   match ts with
-  | "tls" :: rest =>
-    match splitAt? rest with
-    | some (cpart, [sc, alpn, sops, tr]) =>
-      match mapM? parseClient (splitBar cpart), certOf sc, serverOps sops, parseTransport tr with
-      | some clients, some serverCert, some sops, some (inner, twice) =>
-        let s : ServerPart := { serverCert, alpn, sops, inner, twice }
-        some (clients.map fun c => { c, s })
-      | _, _, _, _ => none
-    | _ => none
+  | "tls" :: rest => parseCasesWith sys rest
+  | "tlsf" :: feat :: store :: rest => (sysOfSide feat store).bind (parseCasesWith · rest)
   | _ => none
 
 /-! ### model side -/
@@ -169,8 +205,8 @@ def parseCases (ts : List String) : Option (List Case) :=
 def endpointOf (c : Case) : Except CfgErr (Endpoint Cert (List Cert)) :=
   match c.c.client with
   | .notls => .ok (Endpoint.fromShared c.c.uri)
-  | .auto => Endpoint.new sys c.c.uri
-  | .ops l => (Endpoint.fromShared c.c.uri).tlsConfig sys (ClientTlsConfig.build l)
+  | .auto => Endpoint.new c.sys c.c.uri
+  | .ops l => (Endpoint.fromShared c.c.uri).tlsConfig c.sys (ClientTlsConfig.build l)
 
 /-- The server of the case. `h2` is tonic's own acceptor configured through `ServerTlsConfig`;
 the other ALPN variants are a hand-rolled rustls acceptor given the same identity and the
@@ -276,13 +312,13 @@ def mayTransmit (c : Case) : Bool :=
   match c.c.client, serverAlpn c with
   | .ops l, some sal =>
     (match Spec.Tls.expectedName l c.c.uri with
-     | some name => verifies (Spec.Tls.configuredRoots sys l) [c.s.serverCert] name
+     | some name => verifies (Spec.Tls.configuredRoots c.sys l) [c.s.serverCert] name
      | none => false) &&
     (negotiate [alpnH2] sal == some (some alpnH2) || Spec.Tls.assumes l)
   | .auto, some sal =>
     -- generated-code path: TLS with the enabled roots only, name from the URI, no opt-out
     (match c.c.uri.host with
-     | some name => verifies (Spec.Tls.configuredRoots sys ([.withEnabledRoots] : List COp)) [c.s.serverCert] name
+     | some name => verifies (Spec.Tls.configuredRoots c.sys ([.withEnabledRoots] : List COp)) [c.s.serverCert] name
      | none => false) && negotiate [alpnH2] sal == some (some alpnH2)
   | _, _ => false
 
